@@ -11,6 +11,30 @@ with open(_os.path.join(_os.path.dirname(_os.path.abspath(__file__)), "theorems_
     _T = _json.load(_fh)
 
 REGISTRY = {
+    "C02": {
+        "level": "proof", "claimed": False,
+        "modules": [], "theorems": [],
+        "rule": "cases = directed layout programs (ORG first / later / code before ORG, duplicate and undefined symbols, origins below $100), random "
+                "grammar-directed programs, README mutations, EQU/label matrix; on every accepted program the implementation's listing is re-checked: "
+                "image = concatenation, address(i+1) = address(i) + bytes(i), label value = listing address",
+        "assumptions": [],
+    },
+    "C03": {
+        "level": "proof", "claimed": False,
+        "modules": [], "theorems": [],
+        "rule": "cases = all short/long branch mnemonics and label,PCR / [label,PCR] operands (1- and 2-byte opcodes) at distances around the 8-bit and 16-bit "
+                "limits forward and backward, label+-k forms, programs with several interdependent PCR statements, random programs; every branch / PCR "
+                "statement is decoded and (next address + displacement) mod 65536 compared with the target",
+        "assumptions": [],
+    },
+    "C13": {
+        "level": "proof", "claimed": False,
+        "modules": [], "theorems": [],
+        "rule": "cases = README mutations, random lines over the source alphabet, random programs, interdependent PCR stress programs at every distance "
+                "118..131, INCLUDE trees incl. missing files and cycles, data directives; outcome must be ok or diag within a 3 s watchdog; a sample is "
+                "run through assembler.main with output switches: a diagnostic must give a non-zero exit and leave every output file untouched",
+        "assumptions": [],
+    },
     "C17": {
         "level": "translation_validation",
         "modules": ["CoCoVerif.Props.C17"],
